@@ -1115,7 +1115,10 @@ impl Subscription {
         changed_attrs: &ChangedAttrs,
         event_numbers_watermark: EventNumber,
     ) -> bool {
-        if !self.is_report_allowed(now) {
+        // An expired subscription is not reported on any more: it stays out of the report
+        // loop (which could otherwise keep retrying it, and with it postpone its removal,
+        // for as long as some report is due) and is removed when that loop is left.
+        if self.is_expired(now) || !self.is_report_allowed(now) {
             return false;
         }
 
